@@ -28,6 +28,8 @@ if pid == "C12":
     for i in ids:
         toks = cases[i].split(" ")
         kind, toks = toks[0], toks[1:]
+        if kind not in ("rr", "wrr"):
+            continue  # raw-metadata cases (wraw) are not selector runs
         want = model[i].split(" ") if model[i] else []
         cur, ops, exp, k = [], [], [], 0
         ok = True
